@@ -127,12 +127,58 @@ func c02Judge(sc *e1Scenario, h *hist.Hist, cps map[string][]int, col *evid.Coll
 	return out
 }
 
+// ---- root-only start: the repository has a root of trust but no rule file
+// yet. The successor checks (root signed by the previous root's threshold, no
+// version rollback) must hold for such states too.
+
+func c02RootOnlyPolicies() []*hist.PolicySpec {
+	ro := func(name string, rootKeys []string, thr int, signers []string, version uint64) *hist.PolicySpec {
+		return &hist.PolicySpec{Name: name, RootKeys: rootKeys, RootThreshold: thr, RootSigners: signers, RootVersion: version, TargetsKeys: []string{"T0"}, TargetsThreshold: 1, NoTargets: true}
+	}
+	r0 := []string{"R0"}
+	withTargets := &hist.PolicySpec{Name: "first-rule-file", RootKeys: r0, RootThreshold: 1, RootSigners: r0, TargetsKeys: []string{"T0"}, TargetsThreshold: 1,
+		Files: map[string]hist.FileSpec{"targets": {Rules: []hist.RuleSpec{mainRule([]string{"P0"}, 1)}, Signers: []string{"T0"}}}}
+	withTargetsV1 := &hist.PolicySpec{Name: "first-rule-file-root-version-1", RootKeys: r0, RootThreshold: 1, RootSigners: r0, RootVersion: 1, TargetsKeys: []string{"T0"}, TargetsThreshold: 1,
+		Files: map[string]hist.FileSpec{"targets": {Rules: []hist.RuleSpec{mainRule([]string{"P0"}, 1)}, Signers: []string{"T0"}}}}
+	return []*hist.PolicySpec{
+		ro("root-only", r0, 1, r0, 0),                                            // 0: version = publication counter
+		ro("root-only-add-key", []string{"R0", "R1"}, 1, r0, 0),                  // 1
+		ro("root-only-version-1", r0, 1, r0, 1),                                  // 2: replay of the very first root
+		ro("root-only-rotated-signed-new", []string{"R1"}, 1, []string{"R1"}, 0), // 3
+		withTargets,   // 4
+		withTargetsV1, // 5
+	}
+}
+
+func c02RootOnlyMenu(h *hist.Hist, depth int) []hist.Event {
+	evs := []hist.Event{}
+	for i := range h.Policies {
+		evs = append(evs, hist.Event{Kind: "policy", Policy: i})
+	}
+	// pushes are only offered once a rule file exists (a reference recorded
+	// under a root-only policy cannot be judged by either side)
+	hasTargets := false
+	for _, e := range h.A.Entries {
+		if e.Kind == refver.PolicyEntry {
+			_, hasTargets = e.Policy.Files["targets"]
+		}
+	}
+	if hasTargets {
+		for _, s := range []string{"P0", "U"} {
+			evs = append(evs, hist.Event{Kind: "push", Ref: refMain, Commit: "c1", Signer: s})
+		}
+	}
+	return evs
+}
+
 func c02Scenarios(thorough bool) []*e1Scenario {
 	depth := 3
 	if thorough {
 		depth = 4
 	}
-	return []*e1Scenario{{Name: "C02/chain", World: c01World, Policies: c02Policies(),
+	return []*e1Scenario{{Name: "C02/root-only-start", World: c01World, Policies: c02RootOnlyPolicies(),
+		Prefix: []hist.Event{{Kind: "policy", Policy: 0}}, Menu: c02RootOnlyMenu, Depth: depth + 1, Refs: []string{refMain}, Judge: c02Judge},
+		{Name: "C02/chain", World: c01World, Policies: c02Policies(),
 		Prefix: []hist.Event{{Kind: "policy", Policy: 0}, {Kind: "push", Ref: refMain, Commit: "c0", Signer: "P0"}, {Kind: "push", Ref: refFeat, Commit: "c1", Signer: "P0"}},
 		Menu:   c02Menu, Depth: depth, Refs: []string{refMain}, Judge: c02Judge}}
 }
@@ -145,8 +191,9 @@ func TestC02(t *testing.T) {
 		}
 	}()
 	scs := c02Scenarios(evid.Thorough())
-	col.Bound("events_after_prefix", scs[0].Depth)
-	col.Rule("depth-first enumeration of every sequence of <= %d events after [base policy; authorised push; feature push] over {18 successor policy states: root rotated and signed by {old},{new},{old,new},{}; root threshold raised to 2 signed by 1 or 2; primary rule file forged (signed by an untrusted key, authorising it), unsigned, legitimately changed; delegated file signed as required / by an untrusted key / dangling; root, primary or delegated rule-file version lowered; the same with the root envelope kept byte-identical (root version pinned) while the primary rule file is rolled back or a delegated file added and dropped; delegated file dropped by any later state} x {push to main by the authorised, an unknown, a later-authorised and a delegated principal}; at every node full, latest-only, from-entry verification, VerifyMergeable and LoadCurrentState are compared with the chain conditions of the statement (successor root signed by the predecessor's root threshold, own rule files properly signed, nothing unreachable, no rollback, no disappearing file). A class is (mode, implementation error class, oracle verdict)", scs[0].Depth)
+	col.Bound("events_after_prefix", scs[1].Depth)
+	col.Bound("events_after_root_only_prefix", scs[0].Depth)
+	col.Rule("depth-first enumeration of every sequence of <= %d events after [base policy; authorised push; feature push] over {18 successor policy states: root rotated and signed by {old},{new},{old,new},{}; root threshold raised to 2 signed by 1 or 2; primary rule file forged (signed by an untrusted key, authorising it), unsigned, legitimately changed; delegated file signed as required / by an untrusted key / dangling; root, primary or delegated rule-file version lowered; the same with the root envelope kept byte-identical (root version pinned) while the primary rule file is rolled back or a delegated file added and dropped; delegated file dropped by any later state} x {push to main by the authorised, an unknown, a later-authorised and a delegated principal}; at every node full, latest-only, from-entry verification, VerifyMergeable and LoadCurrentState are compared with the chain conditions of the statement (successor root signed by the predecessor's root threshold, own rule files properly signed, nothing unreachable, no rollback, no disappearing file). A second scenario starts from a repository that has a root of trust but no rule file yet (<= %d events over root-only successors: keys added, rotated and signed by the new key only, the first root replayed = version rollback; then the first rule file, pushes): the successor conditions must hold for root-only states as well. A class is (mode, implementation error class, oracle verdict)", scs[1].Depth, scs[0].Depth)
 	col.Assume("a verification depends on a policy entry if it judges an entry under it (all conditions required) or the entry precedes such a state in the chain (successor conditions required); first policy state trusted on first use")
 	if e1Replayer(scs, col) {
 		return
